@@ -220,5 +220,46 @@ pub open spec fn block_bytes(es: Seq<Ent>, interval: int) -> Seq<u8> {
     payload(es) + be64s(footer_offsets(es, interval)) + be32(footer_len(es.len() as int, interval) as u32)
 }
 
+
+pub open spec fn pow256(n: nat) -> nat decreases n { if n == 0 { 1 } else { 256 * pow256((n - 1) as nat) } }
+
+pub proof fn lemma_le_inj(x: nat, y: nat, n: nat)
+    requires x < pow256(n), y < pow256(n), le_bytes(x, n) == le_bytes(y, n),
+    ensures x == y,
+    decreases n
+{
+    if n > 0 {
+        let a = le_bytes(x, n); let b = le_bytes(y, n);
+        assert(a[0] == b[0]);
+        assert(a.drop_first() =~= le_bytes(x / 256, (n - 1) as nat));
+        assert(b.drop_first() =~= le_bytes(y / 256, (n - 1) as nat));
+        assert(x / 256 < pow256((n - 1) as nat)) by (nonlinear_arith) requires x < 256 * pow256((n - 1) as nat);
+        assert(y / 256 < pow256((n - 1) as nat)) by (nonlinear_arith) requires y < 256 * pow256((n - 1) as nat);
+        lemma_le_inj(x / 256, y / 256, (n - 1) as nat);
+        assert((x % 256) as u8 == (y % 256) as u8);
+    }
+}
+pub proof fn lemma_be_inj(x: nat, y: nat, n: nat)
+    requires x < pow256(n), y < pow256(n), be_bytes(x, n) == be_bytes(y, n),
+    ensures x == y,
+    decreases n
+{
+    if n > 0 {
+        let a = be_bytes(x, n); let b = be_bytes(y, n);
+        assert(a.last() == b.last());
+        assert(a.drop_last() =~= be_bytes(x / 256, (n - 1) as nat));
+        assert(b.drop_last() =~= be_bytes(y / 256, (n - 1) as nat));
+        assert(x / 256 < pow256((n - 1) as nat)) by (nonlinear_arith) requires x < 256 * pow256((n - 1) as nat);
+        assert(y / 256 < pow256((n - 1) as nat)) by (nonlinear_arith) requires y < 256 * pow256((n - 1) as nat);
+        lemma_be_inj(x / 256, y / 256, (n - 1) as nat);
+        assert((x % 256) as u8 == (y % 256) as u8);
+    }
+}
+pub proof fn lemma_pow256()
+    ensures pow256(1) == 256, pow256(4) == 0x1_0000_0000, pow256(8) == 0x1_0000_0000_0000_0000,
+{
+    reveal_with_fuel(pow256, 9);
+}
+
 } // mod ghost
 } // verus!
